@@ -74,14 +74,17 @@ def run(rep, tier):
         else:
             rep.ok("C07.c", k, sample={"layer": k, "grammar": W} if len(rep.samples) < 5 else None)
         if m["layer"] not in io.TRANSPARENT and not m["field"]:
-            ok = len(W) >= 4 and W[0] == "RAW(4)=0x%X" % io.MAGIC_HEADER and W[-2] == "RAW(4)=0x%X" % io.MAGIC_FOOTER and W[1].startswith("RAW(4)=0x") and W[-1].startswith("RAW(4)=0x")
+            Wc = g.Wc
+            ok = bool(Wc) and Wc[0]["kind"] == "raw" and Wc[-1]["kind"] == "raw" and Wc[0]["bytes"] >= 8 and Wc[-1]["bytes"] >= 8
             if ok:
-                t1, t2 = int(W[1].split("=")[1], 16), int(W[-1].split("=")[1], 16)
-                ok = t2 == (t1 + io.FOOTER_DELTA) & 0xFFFFFFFF
-                mid = W[2:-2]
-                nd = mid.count("DELEGATE")
-                ok = ok and nd <= 1 and (nd == 0 or mid[-1] == "DELEGATE") and all(x.startswith("RAW(") for x in mid if x != "DELEGATE")
-                tags.setdefault(t1, set()).add(m["layer"])
+                h0, t1 = io.run_word(Wc[0], 0), io.run_word(Wc[0], 4)
+                f0, t2 = io.run_word(Wc[-1], Wc[-1]["bytes"] - 8), io.run_word(Wc[-1], Wc[-1]["bytes"] - 4)
+                ok = h0 == io.MAGIC_HEADER and f0 == io.MAGIC_FOOTER and t1 is not None and t2 == (t1 + io.FOOTER_DELTA) & 0xFFFFFFFF
+                kinds = [x["kind"] for x in Wc]
+                nd = kinds.count("delegate")
+                ok = ok and nd <= 1 and (nd == 0 or kinds == ["raw", "delegate", "raw"]) and all(k in ("raw", "delegate") for k in kinds)
+                if ok:
+                    tags.setdefault(t1, set()).add(m["layer"])
             if ok:
                 rep.ok("C07.d", k)
             else:
